@@ -78,6 +78,8 @@ impl Muxer {
         };
 
         let chunk_size = 100_000;
+        #[cfg(feature = "verif_hooks")]
+        let chunk_size = super::verif_chunk_size("DOVI_TOOL_VERIF_EL_CHUNK_SIZE", chunk_size);
 
         let writer =
             BufWriter::with_capacity(chunk_size, File::create(output).expect("Can't create file"));
@@ -127,6 +129,8 @@ impl Muxer {
         stdout().flush().ok();
 
         let chunk_size = 100_000;
+        #[cfg(feature = "verif_hooks")]
+        let chunk_size = super::verif_chunk_size("DOVI_TOOL_VERIF_CHUNK_SIZE", chunk_size);
 
         let mut processor = HevcProcessor::new(
             self.format.clone(),
